@@ -69,6 +69,12 @@ def sizeAt (sizes : List Nat) (i : Nat) : Nat := sizes.getD i 0
 /-- slice of chunk `i` along one axis -/
 def sliceAt (ghost : Bool) (sizes : List Nat) (i : Nat) : Nat × Nat := (slices1d ghost sizes).getD i (0, 0)
 
+/-- one axis, data as a list: the chunks `data[a:b]` of all slices (list form of
+`extract_field_data` for every node of a 1-d mesh) -/
+def extractAll {α : Type} (data : List α) : List (Nat × Nat) → List (List α)
+  | [] => []
+  | (a, b) :: r => ((data.drop a).take (b - a)) :: extractAll data r
+
 /-! ## node id <-> node multi-index -/
 
 /-- `np.unravel_index(id, shape)` (C order; total: no range check) -/
